@@ -30,7 +30,7 @@ ASSUMPTIONS = ["scaling by 2^k is exact for all inputs; outputs may still differ
 def plan(tier):
     return {"shards": 8 if tier == "quick" else 16, "budget_s": 30 if tier == "quick" else 480,
             "required_counters": ["field_pairs", "mesh_status_pairs", "pow2_pairs", "pow10_pairs", "excitation_pairs",
-                                  "special_point_rows"]}
+                                  "special_point_rows", "setup_pairs", "setup_cls:TriangularMesh"]}
 
 
 def scale_spec(s, f):
@@ -301,14 +301,94 @@ def check_mesh(ctx, case):
                 return
 
 
+# ------------------------------------------------------------------ whole setups (several sources in one call)
+def gen_setup_case(rng):
+    """2-3 sources of ONE class (they share a vectorised group inside the library; TriangularMeshes mostly with the
+    same number of facets) and observers placed relative to each of them, everything rescaled together"""
+    cls = str(rng.choice(objs.SOURCE_CLASSES + ["TriangularMesh"] * 4))
+    n = int(rng.integers(2, 4))
+    specs = []
+    for _ in range(n):
+        sp = c01.rand_spec(rng, cls)
+        if cls == "TriangularMesh" and rng.random() < 0.8:
+            sp["vertices"], sp["faces"] = objs.rand_mesh(rng, "box")      # 12 facets each, different geometry
+            sp.pop("lifecycle", None)
+        specs.append(sp)
+    pts, kinds, owner = [], [], []
+    for l, sp in enumerate(specs):
+        for _ in range(3):
+            q, reg = c01.sample_observer(rng, sp)
+            pts.append(G.to_global(sp, np.asarray(q, float)[None])[0])
+            kinds.append(reg)
+            owner.append(l)
+    k = int(rng.integers(-30, 31)) if rng.random() < 0.6 else int(rng.choice([-30, -29, -28, -27, -26, 26, 27, 28, 29, 30]))
+    return {"type": "setup", "sources": specs, "observers": np.array(pts).tolist(), "kinds": kinds, "owner": owner,
+            "scale": 2.0 ** k, "mode": "pow2", "sumup": bool(rng.random() < 0.2)}
+
+
+def setup_fields(specs, P):
+    import magpylib as magpy
+
+    with quiet(), np.errstate(all="ignore"):
+        srcs = [objs.build(sp) for sp in specs]
+        return {F: np.asarray(getattr(magpy, "get" + F)(srcs, P, squeeze=False))[:, 0, 0].reshape(len(srcs), -1, 3) for F in "BHJ"}
+
+
+def check_setup(ctx, case):
+    specs, f = case["sources"], case["scale"]
+    P = np.array(case["observers"], float)
+    try:
+        base = setup_fields(specs, P)
+        got = setup_fields([scale_spec(sp, f) for sp in specs], P * f)
+    except Exception as ex:
+        ctx.count("library_raised:" + type(ex).__name__)
+        ctx.inconclusive_case("library raised " + type(ex).__name__ + " (C15 domain)", {"cls": specs[0]["cls"]})
+        return
+    ctx.count("setup_pairs")
+    ctx.count("setup_cls:" + specs[0]["cls"])
+    cls = specs[0]["cls"]
+    fac = law(cls, f)
+    for l, sp in enumerate(specs):
+        size = objs.size_of(sp)
+        Pl = G.to_local(sp, P)
+        for i in range(len(P)):
+            for F in "BHJ":
+                a, b = base[F][l, i], got[F][l, i] * fac
+                ctx.evaluated({"sources": specs, "obs": case["observers"][i], "scale": f, "F": F, "l": l},
+                              nontrivial=abs(np.log10(f)) >= 3)
+                if not (np.all(np.isfinite(a)) and np.all(np.isfinite(b))):
+                    if np.all(np.isfinite(a)) != np.all(np.isfinite(b)):
+                        ctx.violation({"kind": "finite-at-one-scale-only", "cls": cgroup(cls), "where": "setup", "scale": sbucket(f)},
+                                      case, {"i": i, "l": l, "base": a, "scaled": b, "scale": f, "F": F})
+                    continue
+                fl = tol.floor_abs(sp, F if F != "J" else "B")
+                if cls in objs.MAGNETS:
+                    d = abs(float(G.depth(sp, Pl[i:i + 1])[0])) / size
+                    if cls == "CylinderSegment":
+                        d = min(d, float(G.cylseg_coincidence_dist(sp, Pl[i:i + 1])[0]))
+                    fl *= max(1.0, 1e-3 / max(d, 1e-12)) ** 2
+                ok, w = tol.close_a(b, a, fl, rtol=1e-9)
+                if not ok:
+                    near_axis = None
+                    if cls == "CylinderSegment":
+                        near_axis = bool(np.hypot(Pl[i][0], Pl[i][1]) < 0.1 * sp["dimension"][1])
+                    ctx.violation({"kind": "scale-dependent-field", "cls": cgroup(cls), "where": "setup:" + wgroup(case["kinds"][i]),
+                                   "own_observer": bool(case["owner"][i] == l), "scale": sbucket(f), "cylseg_near_axis": near_axis},
+                                  case, {"i": i, "l": l, "base": a, "scaled_back": b, "scale": f, "ratio": w, "F": F, "local": Pl[i]})
+                    return
+
+
 def check_case(ctx, case):
-    (check_field if case["type"] == "field" else check_mesh)(ctx, case)
+    {"field": check_field, "mesh": check_mesh, "setup": check_setup}[case["type"]](ctx, case)
 
 
 def run_shard(ctx):
     rng = ctx.rng
     while not ctx.expired():
-        if rng.random() < 0.8:
+        u = rng.random()
+        if u < 0.2:
+            check_case(ctx, gen_setup_case(rng))
+        elif u < 0.8:
             check_case(ctx, gen_field_case(rng))
         else:
             k = int(rng.integers(-30, 31))
